@@ -1896,6 +1896,9 @@ func (g Gateway) Uint32SliceDelete(ctx context.Context, in *hydrapb.Uint32SliceD
 
 	for _, pair := range in.KeySlicePairs {
 
+		// set inside the guarded section, acted upon after the guard is released
+		deleteTreasure := false
+
 		func() {
 
 			// try to load the treasure
@@ -1918,13 +1921,18 @@ func (g Gateway) Uint32SliceDelete(ctx context.Context, in *hydrapb.Uint32SliceD
 			// if the length is 0, we can delete the treasure
 			size, err := treasureObj.Uint32SliceSize()
 			if err != nil || size == 0 {
-				// delete the treasure
-				if err := swampObj.DeleteTreasure(pair.GetKey(), false); err != nil {
-					errorsWhileDelete = append(errorsWhileDelete, err.Error())
-				}
+				deleteTreasure = true
 			}
 
 		}()
+
+		// DeleteTreasure takes the treasure guard itself, so it must run after the guard
+		// above is released; calling it inside the guarded section blocked forever.
+		if deleteTreasure {
+			if err := swampObj.DeleteTreasure(pair.GetKey(), false); err != nil {
+				errorsWhileDelete = append(errorsWhileDelete, err.Error())
+			}
+		}
 
 	}
 
